@@ -207,6 +207,15 @@ def observe_one(gl, op, cname):
         if op == 'delete':
             gl(o, Delete('x'))
             return 'log=%r x=%r' % (HLOG, probe(o, 'x'))
+        if op == 'assign-created':
+            # the object is created by missing= during the call: filling it must use the SAME registry as everything else in the call
+            made = []
+
+            def mk():
+                made.append(CLS[cname]())
+                return made[-1]
+            gl({}, Assign('new.y', 1, missing=mk))
+            return 'log=%r y=%r' % (HLOG, probe(made[0], 'y'))
     except UnregisteredTarget:
         return 'UnregisteredTarget'
     except GlomError as e:
@@ -230,8 +239,8 @@ def probe(o, name):
     return ','.join(out)
 
 
-def observe_all(gl, family):
-    return {(op, c.__name__): observe_one(gl, op, c.__name__) for c in FAMILIES[family] for op in OPS}
+def observe_all(gl, family, created=True):
+    return {(op, c.__name__): observe_one(gl, op, c.__name__) for c in FAMILIES[family] for op in OPS + (['assign-created'] if created else [])}
 
 
 # ---------------------------------------------------------------------------
@@ -446,7 +455,7 @@ def run_history_inproc(family, hist, observe_every, with_module):
         callers['module'] = glom
     model = {k: [] for k in callers}
     problems = []
-    last = {k: observe_all(callers[k], family) for k in callers} if observe_every else None
+    last = {k: observe_all(callers[k], family, k != 'bare') for k in callers} if observe_every else None
     if observe_every:
         problems += check_obs(family, last, model)
     for i, ev in enumerate(hist):
@@ -454,7 +463,7 @@ def run_history_inproc(family, hist, observe_every, with_module):
         which, cname, opset, exact = ev
         model[which].append((CLS[cname], {op: cname for op in OPSETS[opset]}, exact))
         if observe_every or i == len(hist) - 1:
-            now = {k: observe_all(callers[k], family) for k in callers}
+            now = {k: observe_all(callers[k], family, k != 'bare') for k in callers}
             problems += check_obs(family, now, model)
             if observe_every:
                 for k in callers:
@@ -464,7 +473,7 @@ def run_history_inproc(family, hist, observe_every, with_module):
             last = now
         if problems:
             break
-    final = last if last is not None else {k: observe_all(callers[k], family) for k in callers}
+    final = last if last is not None else {k: observe_all(callers[k], family, k != 'bare') for k in callers}
     return problems, final
 
 
@@ -476,7 +485,7 @@ def check_obs(family, obs, model):
     problems = []
     for k, o in obs.items():
         for (op, cname), seen in o.items():
-            adm = admissible(model[k], k != 'bare', OPS_AVAILABLE[k], op, cname)
+            adm = admissible(model[k], k != 'bare', OPS_AVAILABLE[k], 'assign' if op == 'assign-created' else op, cname)
             if seen not in adm:
                 problems.append('registry %s: %s on %s() observed %s, admissible %s (registrations %s)' % (
                     k, op, cname, seen, sorted(map(str, adm)), [(r[0].__name__, sorted(r[1]), r[2]) for r in model[k]]))
@@ -557,6 +566,12 @@ def gen_histories(tier):
                     mixed = list(hist)
                     mixed.insert(1, ['bare', hist[0][1], 'all', False])
                     cases.append([family, mixed, False])
+        if tier == 'quick':
+            # depth 3 only for the re-registration pattern: register X, register Y, register X again (possibly with other operations)
+            for x, y in itertools.permutations(REGISTRABLE[family], 2):
+                for o1, o2, o3 in itertools.product(('get', 'all'), repeat=3):
+                    for reg in ('default', 'bare'):
+                        cases.append([family, [[reg, x, o1, False], [reg, y, o2, False], [reg, x, o3, False]], False])
         if family == 'diamond-bottom':
             # the registered bottom of a diamond with an unregistered subclass below it: all orders of the three registrations
             for opset in ('get', 'all'):
